@@ -32,6 +32,7 @@ TRUSTED_BASE = [
     "Lean compiler, for running the model in the driver (correspondence only)",
     "hand-written model DnsModel/*.lean tied to /repo by differential execution on generated cases (checked, not proved)",
     "Generated/Constants.lean and Generated/FnTable.lean regenerated from /repo on every run",
+    "rs2lean.py (Rust-subset -> Lean translator, syntax-directed): Generated/TrHeader.lean, TrName.lean, TrSector.lean are rewritten from /repo's source text on every run; Tie/*.lean prove each translated function equal to the model function the theorems are about (32 functions: header getters/setters, DNSSector cursor primitives and loaders, both name validators)",
     "harness (Rust), generators, checklib.py",
     "safe-Rust memory safety; usize modelled as Nat; debug overflow/underflow semantics = panic",
 ]
@@ -89,6 +90,18 @@ def regenerate():
             return False, "gen_fntable failed: " + err
         if write_if_changed(os.path.join(LEAN, "DnsModel", "Generated", "FnTable.lean"), out):
             notes.append("Generated/FnTable.lean changed")
+    # the Rust -> Lean translation of the functions listed in rs2lean.py (header API, cursor primitives, name validators)
+    tr = os.path.join(ROOT, "rs2lean.py")
+    gdir = os.path.join(LEAN, "DnsModel", "Generated")
+    before = {f: open(os.path.join(gdir, f)).read() for f in os.listdir(gdir) if f.startswith("Tr")}
+    rc, out, err = sh([sys.executable, tr, gdir])
+    for f in sorted(os.listdir(gdir)):
+        if f.startswith("Tr") and before.get(f) != open(os.path.join(gdir, f)).read():
+            notes.append("Generated/%s changed" % f)
+    if rc != 0:
+        # the group's file now holds only a marker: the Tie module of that group, and with it the theorem modules
+        # of the properties that rest on it, no longer build - reported by those properties' checks
+        notes.append("rs2lean: " + err.strip().replace("\n", " | ")[-600:])
     return True, "; ".join(notes)
 
 
@@ -97,8 +110,21 @@ def lake_build(targets, timeout):
         rc, out, err = sh(["lake", "build"] + targets, cwd=LEAN, timeout=timeout)
     except subprocess.TimeoutExpired:
         return False, "lake build exceeded its time cap (%ds)" % timeout
-    text = "\n".join(l for l in (out + err).splitlines() if not l.startswith("trace:"))
-    return rc == 0, text[-8000:]
+    lines = [l for l in (out + err).splitlines() if not l.startswith("trace:")]
+    if rc == 0:
+        return True, ""
+    # errors first (with what follows them up to the next diagnostic), then which modules failed; warnings dropped
+    keep, on = [], False
+    for l in lines:
+        if l.startswith("error:") or l.startswith("\u2716") or l.startswith("- ") or l.startswith("Some required"):
+            on = l.startswith("error:")
+            keep.append(l)
+        elif l.startswith("warning:") or l.startswith("\u2714") or l.startswith("\u26a0") or l.startswith("Note:") or l.startswith("Hint:"):
+            on = False
+        elif on:
+            keep.append(l)
+    text = "\n".join(keep)
+    return False, text[:8000]
 
 
 def audit(prop, theorems, module):
@@ -347,6 +373,13 @@ class Check:
             short = t.split(".")[-1]
             if re.search(r"\b%s\b" % re.escape(short), log):
                 failed.append(t)
+        # a tie module that no longer builds: the equalities between the translated source and the model
+        for m in re.finditer(r"DnsModel/(Tie/\w+)\.lean:(\d+)", log):
+            name = "%s.lean:%s (translated source = model no longer proved)" % (m.group(1), m.group(2))
+            if name not in failed:
+                failed.append(name)
+        if any(f.startswith("Tie/") for f in failed):
+            failed += [t for t in theorems if ".source_" in t and t not in failed]
         return failed or ["(build failed before the property theorems: see log)"]
 
     # -- obligation 2 + oracle ----------------------------------------------------------------
